@@ -162,21 +162,31 @@ func c02MissCodes(c *core.Ctx, reg *types.Named) {
 		}
 	}
 	// shared helpers: unexported methods of *Registry whose last result is error
+	// and that the read-side methods above call (directly or through each other);
+	// helpers used only by the write side decide admission, not lookup results
 	helpers := map[*ssa.Function]bool{}
-	ms := c.P.SSA.MethodSets.MethodSet(ptr)
-	for i := 0; i < ms.Len(); i++ {
-		sel := ms.At(i)
-		if len(sel.Index()) != 1 || sel.Obj().Exported() {
-			continue
+	isHelper := func(fn *ssa.Function) bool {
+		if fn == nil || fn.Blocks == nil || fn.Signature.Recv() == nil || fn.Object() == nil || fn.Object().Exported() {
+			return false
 		}
-		fn := c.P.SSA.MethodValue(sel)
-		if fn == nil || fn.Blocks == nil {
-			continue
+		if structName(fn.Signature.Recv().Type()) != "Registry" {
+			return false
 		}
 		res := fn.Signature.Results()
-		if res.Len() > 0 && res.At(res.Len()-1).Type().String() == "error" && fnName(fn) != "checkManifest" {
-			fns = append(fns, fn)
-			helpers[fn] = true
+		return res.Len() > 0 && res.At(res.Len()-1).Type().String() == "error"
+	}
+	work := append([]*ssa.Function{}, fns...)
+	for len(work) > 0 {
+		f := work[0]
+		work = work[1:]
+		for _, g := range facts.WithAnon(f) {
+			for _, ci := range facts.CallsIn(g) {
+				if h := ci.Common().StaticCallee(); isHelper(h) && !helpers[h] {
+					helpers[h] = true
+					fns = append(fns, h)
+					work = append(work, h)
+				}
+			}
 		}
 	}
 	n := 0
